@@ -216,7 +216,14 @@ def check_stale_payload(ctx, case):
     _stale_counter[0] += 1
     spec = f"vfstale{_stale_counter[0]}x{ctx.shard} " + case["spec"]
     try:
-        ann = cat_obj(case["cat"])[np.ndarray, spec]
+        if case.get("disabled_at_creation"):
+            # the annotation is created while the run-time switch is off (e.g. a module imported under JAXTYPING_DISABLE) and used --
+            # dumped, loaded, checked against -- after checking was switched on again
+            jaxtyping.config.update("jaxtyping_disable", True)
+        try:
+            ann = cat_obj(case["cat"])[np.ndarray, spec]
+        finally:
+            jaxtyping.config.update("jaxtyping_disable", False)
     except ValueError:
         return
     dumps, loads = (cloudpickle.dumps, cloudpickle.loads) if case["route"] == "cloudpickle" else ((lambda a: pickle.dumps(a, protocol=int(case["route"][6:]))), pickle.loads)
@@ -232,7 +239,7 @@ def check_stale_payload(ctx, case):
     before = vector(ann)
     back = loads(blob)
     after = vector(ann)
-    ctx.note(["stale", case["cat"], case["spec"], case["route"], case["use_between"]], case["use_between"], classes=["stale-payload", f"route-{case['route']}"],
+    ctx.note(["stale", case["cat"], case["spec"], case["route"], case["use_between"]], case["use_between"], classes=["stale-payload", f"route-{case['route']}"] + (["created-while-disabled"] if case.get("disabled_at_creation") else []),
              sample={"annotation": f"{case['cat']}[ndarray, {spec!r}]", "route": case["route"], "used_between_dump_and_load": case["use_between"]})
     if before != after:
         i = next(i for i, (x, y) in enumerate(zip(before, after)) if x != y)
@@ -241,7 +248,8 @@ def check_stale_payload(ctx, case):
                         f"({probe_label(i)}: {before[i]} -> {after[i]}); used as a generator's return annotation in between: {case['use_between']}")
     # (after the use in between the original is in the state described by the known finding of C12: only compared otherwise)
     if not case["use_between"] and vector(back) != after:
-        raise Violation("meaning-changed", dict(case, stale=True), f"{case['route']} payload of {case['cat']}[ndarray, {spec!r}] loaded later differs from the original")
+        raise Violation("meaning-changed", dict(case, stale=True), f"{case['route']} payload of {case['cat']}[ndarray, {spec!r}] loaded later differs from the original"
+                                                                     + (" (the original was created while jaxtyping_disable was on; both are used with checking on)" if case.get("disabled_at_creation") else ""))
 
 
 def probe_repr(i):
@@ -377,6 +385,14 @@ def run(ctx):
                 i = next(i for i, (x, y) in enumerate(zip(v0, v1)) if x != y)
                 raise Violation("meaning-changed", dict(d, route=route, lookalike_of=(desc if d is flat_desc else flat_desc), flat_first=flat_first),
                                 f"{route}: {describe(d)} loaded after its look-alike differs on {probe_label(i)}: original {v0[i]}, reconstructed {v1[i]}")
+        # neither load may have touched either original
+        for ann, v0, d in pair:
+            v2 = vector(ann)
+            if v2 != v0:
+                i = next(i for i, (x, y) in enumerate(zip(v0, v2)) if x != y)
+                raise Violation("original-changed", dict(d, route=route, lookalike_of=(desc if d is flat_desc else flat_desc), flat_first=flat_first),
+                                f"{route}: after {describe(flat_desc)} and its look-alike {describe(desc)} were both dumped and loaded ({'flat' if flat_first else 'nested'} one first), "
+                                f"the ORIGINAL {describe(d)} answers differently on {probe_label(i)}: {v0[i]} -> {v2[i]}")
 
     ctx.hyp(lookalikes, max_examples=ctx.n(40, 300))
 
@@ -384,10 +400,11 @@ def run(ctx):
     # The use in between is the one public use that is known to change an annotation object (old-style decoration of a
     # generator function, known finding of C12); each case gets an annotation class of its own (fresh axis name).
     @given(st.sampled_from(["Float", "Shaped", "Int8", "Num"] + CATS), gd.legal_spec(max_axes=2, names=["a", "b"], vnames=["v"], multi_prob=0.3),
-           st.sampled_from(["cloudpickle", "pickle2", "cloudpickle", "pickle5"]), st.booleans())
-    def stale_payload(cat, toks, route, use_between):
+           st.sampled_from(["cloudpickle", "pickle2", "cloudpickle", "pickle5"]), st.booleans(), st.sampled_from([True, False, False]))
+    def stale_payload(cat, toks, route, use_between, disabled_at_creation):
         obs.reset_state()
-        check_stale_payload(ctx, {"cat": cat, "spec": dl.spec_spelling(toks), "route": route, "use_between": use_between})
+        check_stale_payload(ctx, {"cat": cat, "spec": dl.spec_spelling(toks), "route": route, "use_between": use_between and not disabled_at_creation,
+                                  "disabled_at_creation": disabled_at_creation})
 
     ctx.hyp(stale_payload, max_examples=ctx.n(30, 200))
     # loading in one thread while another thread builds / loads / uses annotations of the same category: the harness
@@ -462,7 +479,16 @@ def replay(case, clause, ctx):
             va, vb = vector(a), vector(b)
             vector(roundtrip(a, route))
             v1 = vector(roundtrip(b, route))
-            return None if v1 == vb else f"{describe(case)} loaded after its look-alike {describe(other)} answers differently"
+            if v1 != vb:
+                return f"{describe(case)} loaded after its look-alike {describe(other)} answers differently"
+            if vector(a) != va or vector(b) != vb:
+                return f"loading {describe(other)} and {describe(case)} one after the other changed what an original accepts"
+            # the other order
+            vector(roundtrip(b, route))
+            vector(roundtrip(a, route))
+            if vector(a) != va or vector(b) != vb:
+                return f"loading {describe(case)} and {describe(other)} one after the other changed what an original accepts"
+            return None
         if route.startswith("x-"):
             cross = []
             check_case(ctx, case, [], cross)
